@@ -13,6 +13,8 @@ import (
 	metav1 "k8s.io/apimachinery/pkg/apis/meta/v1"
 	"k8s.io/apimachinery/pkg/apis/meta/v1/unstructured"
 	"k8s.io/apimachinery/pkg/runtime"
+
+	xpv1 "github.com/crossplane/crossplane-runtime/apis/common/v1"
 	"k8s.io/apimachinery/pkg/runtime/schema"
 	"k8s.io/apimachinery/pkg/types"
 	"k8s.io/apimachinery/pkg/util/validation/field"
@@ -92,6 +94,10 @@ func drawSpec(t *sim.Tape, kind, metaName string, invalidOK bool) Spec {
 	if valid && s.Form == "annotated" && t.Next(4) > 0 {
 		s.Built = true
 	}
+	// now and then a large package: its cache entry is written in several chunks
+	if invalidOK && !s.Built && t.Next(3) == 0 {
+		s.Bulk = 100 + 50*t.Next(3)
+	}
 	return s
 }
 
@@ -111,22 +117,29 @@ type run struct {
 	pkgs   []*Pkg
 	taskOf map[int]string // revision reconcile task -> revision name
 	// C16 bookkeeping
-	rejectName string // creates of this object name are rejected by the API server
+	rejectName string // writes of this object name are rejected by the API server while rejectOn
+	rejectOn   bool
+	rejectSeq  int // log position of the last change of rejectOn
 	foreign    map[string]bool
 	instances  int
 	guard      map[simapi.ObjKey]string
+	damaged    map[string]bool // cache entries (revision names) damaged on disk by the environment
+	unsigned   map[string]bool // images (repo:tag) whose signature verification never succeeds
 }
 
 // Run is the generic W-pkg run for C15 / C16.
 func Run(s *sim.Sim, res *runner.Result, mode Mode) {
 	t := s.Tape
 	o := Opts{MaxEstablishers: 1 + t.Next(3), DiskFaults: mode.C15}
+	if mode.C15 {
+		o.Verify = t.Next(3) == 0
+	}
 	w, err := New(s, res, o)
 	if err != nil {
 		res.Trouble = err.Error()
 		return
 	}
-	r := &run{w: w, mode: mode, taskOf: map[int]string{}, foreign: map[string]bool{}}
+	r := &run{w: w, mode: mode, taskOf: map[int]string{}, foreign: map[string]bool{}, unsigned: map[string]bool{}}
 	nPkg := 1 + t.Next(2)
 	for i := 0; i < nPkg; i++ {
 		kind := PkgKinds[t.Next(3)]
@@ -136,6 +149,9 @@ func Run(s *sim.Sim, res *runner.Result, mode Mode) {
 			if err := w.Publish(p.Repo, tag, spec); err != nil {
 				res.Trouble = fmt.Sprintf("publish %s:%s: %v", p.Repo, tag, err)
 				return
+			}
+			if o.Verify && t.Next(3) == 0 {
+				r.unsigned[p.Repo+":"+tag] = true
 			}
 		}
 		r.pkgs = append(r.pkgs, p)
@@ -202,8 +218,15 @@ func Run(s *sim.Sim, res *runner.Result, mode Mode) {
 		if mode.C15 {
 			acts = append(acts, sim.Action{Key: "disk: corrupt or truncate a cache entry", Weight: 2, Run: func() { r.damageCache(t) }})
 		}
+		if o.Verify {
+			acts = append(acts, sim.Action{Key: "signature controller: reports on a revision", Weight: 8, Run: func() { r.verifyOne(t, false) }})
+		}
 		if mode.C16 {
 			acts = append(acts, sim.Action{Key: "user creates an instance of a package CRD", Weight: 2, Run: r.createInstance})
+			if r.rejectName != "" {
+				acts = append(acts, sim.Action{Key: "the API server starts/stops rejecting " + r.rejectName, Weight: 1, Run: r.toggleReject})
+			}
+			acts = append(acts, sim.Action{Key: "somebody deletes a package CRD", Weight: 1, Run: func() { r.deleteObjectOutOfBand(t) }})
 			for _, k := range w.Store.GCCandidates() {
 				k := k
 				acts = append(acts, sim.Action{Key: "k8s-gc " + k.String(), Weight: 6, Run: func() { w.Store.GCStep(k) }})
@@ -226,7 +249,13 @@ func Run(s *sim.Sim, res *runner.Result, mode Mode) {
 		w.Restart()
 		hookStart()
 	}
+	if o.Verify {
+		r.verifyOne(t, true)
+	}
 	quiet := w.Heal(10, func() {
+		if o.Verify {
+			r.verifyOne(t, true)
+		}
 		if mode.C16 {
 			for _, k := range w.Store.GCCandidates() {
 				w.Store.GCStep(k)
@@ -259,6 +288,9 @@ func (r *run) switchVersion(p *Pkg) {
 }
 
 func (r *run) damageCache(t *sim.Tape) {
+	if os.Getenv("VERIF_NO_DAMAGE") != "" {
+		return // investigation aid: only the code's own (failed, torn) writes touch the cache
+	}
 	fis, err := afero.ReadDir(r.w.MemFs, "/cache")
 	if err != nil || len(fis) == 0 {
 		return
@@ -278,6 +310,69 @@ func (r *run) damageCache(t *sim.Tape) {
 		r.w.S.Faults["disk-corrupt-byte"]++
 	}
 	_ = afero.WriteFile(r.w.MemFs, path, b, 0o644)
+	if r.damaged == nil {
+		r.damaged = map[string]bool{}
+	}
+	r.damaged[strings.TrimSuffix(fi.Name(), ".gz")] = true
+}
+
+// verifiedRead returns the status of the Verified condition of the revision as
+// the task read it (its last successful get of the revision).
+func (r *run) verifiedRead(taskID int, revName string) string {
+	for i := len(r.w.Store.Log) - 1; i >= 0; i-- {
+		l := r.w.Store.Log[i]
+		if l.TaskID == taskID && l.Read && l.Verb == "get" && revisionKind(l.Key.Kind) && l.Key.Name == revName && l.Err == nil && l.After != nil {
+			return condStatus(l.After, "Verified")
+		}
+	}
+	return "unread"
+}
+
+// verifyOne plays the signature verification controller for one revision (all
+// of them when all is set): signed images verify, unsigned ones fail or stay
+// incomplete.
+func (r *run) verifyOne(t *sim.Tape, all bool) {
+	w := r.w
+	ctx := context.Background()
+	var keys []simapi.ObjKey
+	for _, k := range PkgKinds {
+		keys = append(keys, w.Store.KeysOf(RevGK[k])...)
+	}
+	if len(keys) == 0 {
+		return
+	}
+	if !all {
+		keys = []simapi.ObjKey{keys[t.Next(len(keys))]}
+	}
+	for _, k := range keys {
+		m := w.Store.Peek(k)
+		img, _, _ := unstructured.NestedString(m, "spec", "image")
+		var c xpv1.Condition
+		switch {
+		case !r.unsigned[strings.TrimPrefix(img, Registry+"/")]:
+			c = pkgv1.VerificationSucceeded("cfg")
+		case all || t.Next(2) == 0:
+			c = pkgv1.VerificationFailed("cfg", fmt.Errorf("no matching signatures"))
+		default:
+			c = pkgv1.VerificationIncomplete(fmt.Errorf("registry unavailable"))
+		}
+		if condStatus(m, "Verified") == string(c.Status) {
+			continue
+		}
+		u := &unstructured.Unstructured{Object: runtime.DeepCopyJSON(m)}
+		cl, _, _ := unstructured.NestedSlice(u.Object, "status", "conditions")
+		var out []any
+		for _, x := range cl {
+			if xm, _ := x.(map[string]any); xm != nil && xm["type"] != "Verified" {
+				out = append(out, x)
+			}
+		}
+		out = append(out, map[string]any{"type": "Verified", "status": string(c.Status), "reason": string(c.Reason), "message": c.Message, "lastTransitionTime": "2026-01-01T00:00:00Z"})
+		_ = unstructured.SetNestedSlice(u.Object, out, "status", "conditions")
+		if w.Direct.Status().Update(ctx, u) == nil {
+			w.S.Probe("signature-verdict/" + string(c.Status))
+		}
+	}
 }
 
 // specOfRevision returns the image spec a revision stands for.
@@ -305,7 +400,9 @@ func pkgObjectKind(kind string) bool {
 	return false
 }
 
-func revisionKind(kind string) bool { return strings.HasSuffix(kind, "Revision") && kind != "CompositionRevision" }
+func revisionKind(kind string) bool {
+	return strings.HasSuffix(kind, "Revision") && kind != "CompositionRevision"
+}
 
 // onLog judges every write of a revision reconcile on a package object.
 func (r *run) onLog(e *simapi.LogEntry) {
@@ -338,6 +435,13 @@ func (r *run) onLog(e *simapi.LogEntry) {
 		return
 	}
 	id := e.Key.Kind + "/" + e.Key.Name
+	if r.mode.C15 && w.Opts.Verify {
+		if st := r.verifiedRead(e.TaskID, revName); st != "True" {
+			w.S.Violate("C15/unverified-package-established", fmt.Sprintf("revision %s installs %s although signature verification is enabled and the revision's Verified condition was %q when this reconcile read it", revName, id, st))
+			return
+		}
+		w.S.Probe("establish-write-of-verified-revision")
+	}
 	if r.mode.C15 {
 		if v, why := Valid(p.Kind, sp, p.Ignore); !v {
 			w.S.Violate("C15/invalid-package-established", fmt.Sprintf("revision %s installs %s although its package must be rejected (%s)", revName, id, why))
@@ -403,6 +507,11 @@ func (r *run) onDone(ctrl string, key types.NamespacedName, t *sim.Task, startSe
 		}
 	}
 	state, _, _ := unstructured.NestedString(rev, "spec", "desiredState")
+	if r.mode.C15 && w.Opts.Verify && healthyNow {
+		if st := r.verifiedRead(t.ID, key.Name); st != "True" {
+			w.S.Violate("C15/unverified-package-healthy", fmt.Sprintf("revision %s is reported healthy although its Verified condition was %q when the reconcile read it", key.Name, st))
+		}
+	}
 	if r.mode.C15 && t.Normal && healthyNow {
 		if v, why := Valid(p.Kind, sp, p.Ignore); !v {
 			w.S.Violate("C15/invalid-package-healthy", fmt.Sprintf("revision %s is reported healthy although its package must be rejected (%s)", key.Name, why))
@@ -584,14 +693,37 @@ func (r *run) setupC16(t *sim.Tape) {
 			}
 		}
 	}
-	if t.Next(4) == 0 {
+	if t.Next(2) == 0 {
 		_, r.rejectName = Obj{Kind: "CRD", Name: objPool[t.Next(len(objPool))]}.ObjectID()
+		r.rejectOn = t.Next(2) == 0
 		w.Store.Admission = append(w.Store.Admission, func(req *simapi.AdmissionRequest) error {
-			if req.Key.Name == r.rejectName && req.Caller.Actor == "pkg" && (req.Operation == "CREATE" || req.Operation == "UPDATE") {
+			if r.rejectOn && req.Key.Name == r.rejectName && req.Caller.Actor == "pkg" && (req.Operation == "CREATE" || req.Operation == "UPDATE") {
 				return kerrors.NewInvalid(schema.GroupKind{Group: req.Key.Group, Kind: req.Key.Kind}, req.Key.Name, field.ErrorList{field.Invalid(field.NewPath("spec"), nil, "rejected by the API server")})
 			}
 			return nil
 		})
+	}
+}
+
+// toggleReject: the API server starts or stops rejecting writes of one object
+// (an admission webhook being installed or removed).
+func (r *run) toggleReject() {
+	r.rejectOn = !r.rejectOn
+	r.rejectSeq = r.w.Store.Seq()
+	r.w.S.Probe(fmt.Sprintf("rejection-toggled/%v", r.rejectOn))
+}
+
+// deleteObjectOutOfBand: somebody deletes a package CRD behind the package manager's back.
+func (r *run) deleteObjectOutOfBand(t *sim.Tape) {
+	n := objPool[t.Next(len(objPool))]
+	u := mustObj(Obj{Kind: "CRD", Name: n})
+	if m := r.obj("CustomResourceDefinition", u.GetName()); m != nil {
+		if uid, _, _ := controllerOf(m); uid == "stranger-uid" {
+			return
+		}
+	}
+	if r.w.Direct.Delete(context.Background(), u) == nil {
+		r.w.S.Probe("package-object-deleted-out-of-band")
 	}
 }
 
@@ -673,7 +805,7 @@ func (r *run) judgeC16(revName, kind string, rev map[string]any, sp Spec, p *Pkg
 				}
 			}
 		}
-		if parts[1] == r.rejectName && r.rejectName != "" {
+		if parts[1] == r.rejectName && r.rejectName != "" && r.rejectOn && len(mine) > 0 && r.rejectSeq <= mine[0].Seq {
 			blocked = k + " is rejected by the API server"
 		}
 	}
@@ -738,9 +870,94 @@ func (r *run) judgeC16(revName, kind string, rev map[string]any, sp Spec, p *Pkg
 	w.S.Probe("ownership-checked/" + state)
 }
 
+// final (fault-free, quiescent): whatever happened to the cache on the way -
+// failed, partial or torn writes, truncated or corrupt entries - the current
+// revision of every valid package has installed exactly what its image declares.
 func (r *run) final() {
-	if r.mode.C15 {
-		r.w.S.Probe("c15-final")
+	if !r.mode.C15 {
+		return
+	}
+	w := r.w
+	w.S.Probe("c15-final")
+	// packages that compete for the same object names legitimately block each other
+	claimed := map[string]int{}
+	for _, p := range r.pkgs {
+		seen := map[string]bool{}
+		for _, tag := range p.Tags {
+			for _, k := range w.Published[p.Repo+":"+tag].ObjectKeys() {
+				if !seen[k] {
+					seen[k] = true
+					claimed[k]++
+				}
+			}
+		}
+	}
+	for _, p := range r.pkgs {
+		pm := w.Store.Peek(simapi.ObjKey{Group: PkgGK[p.Kind].Group, Kind: p.Kind, Name: p.Name})
+		if pm == nil {
+			continue
+		}
+		cur, _, _ := unstructured.NestedString(pm, "status", "currentRevision")
+		src, _, _ := unstructured.NestedString(pm, "spec", "package")
+		rev := w.Store.Peek(simapi.ObjKey{Group: RevGK[p.Kind].Group, Kind: RevGK[p.Kind].Kind, Name: cur})
+		if rev == nil {
+			continue
+		}
+		img, _, _ := unstructured.NestedString(rev, "spec", "image")
+		if img != src {
+			continue
+		}
+		sp, ok := w.Published[strings.TrimPrefix(img, Registry+"/")]
+		if !ok {
+			continue
+		}
+		if v, _ := Valid(p.Kind, sp, p.Ignore); !v {
+			continue
+		}
+		if st, _, _ := unstructured.NestedString(rev, "spec", "desiredState"); st != "Active" {
+			continue
+		}
+		if w.Opts.Verify && condStatus(rev, "Verified") != "True" {
+			w.S.Probe("c15-final/skipped-unverified")
+			continue
+		}
+		shared := false
+		for _, k := range sp.ObjectKeys() {
+			shared = shared || claimed[k] > 1
+		}
+		if shared {
+			w.S.Probe("c15-final/skipped-shared-objects")
+			continue
+		}
+		want := sp.ObjectKeys()
+		got := objectRefs(rev)
+		if condStatus(rev, "Healthy") != "True" || strings.Join(got, ",") != strings.Join(want, ",") {
+			msg := ""
+			cl, _, _ := unstructured.NestedSlice(rev, "status", "conditions")
+			for _, c := range cl {
+				if m, _ := c.(map[string]any); m != nil && m["type"] == "Healthy" {
+					msg = fmt.Sprint(m["message"])
+				}
+			}
+			sig := "C15/valid-package-not-installed-after-faults-stopped"
+			// is a revision of this package stuck on a cache entry that was damaged
+			// on disk (this one, or an older one that therefore cannot hand over its objects)?
+			for _, k := range w.Store.KeysOf(RevGK[p.Kind]) {
+				rv := w.Store.Peek(k)
+				if (&unstructured.Unstructured{Object: rv}).GetLabels()[pkgv1.LabelParentPackage] != p.Name || !r.damaged[k.Name] {
+					continue
+				}
+				cl, _, _ := unstructured.NestedSlice(rv, "status", "conditions")
+				for _, c := range cl {
+					if m, _ := c.(map[string]any); m != nil && m["type"] == "Healthy" && strings.Contains(fmt.Sprint(m["message"]), "cannot parse package contents") {
+						sig = "C15/valid-package-not-installed-after-faults-stopped/unparsable-cache-entry-damaged-on-disk"
+					}
+				}
+			}
+			w.S.Violate(sig, fmt.Sprintf("revision %s of the valid package %s is not healthy with the objects its image declares once faults have stopped and the system is quiet: healthy=%s objects=%v want %v (%s)", cur, img, condStatus(rev, "Healthy"), got, want, msg))
+			return
+		}
+		w.S.Probe("c15-final/installed-as-declared")
 	}
 }
 
